@@ -99,9 +99,19 @@ def specLine (line : String) : Option String :=
     else none
   | _ => none
 
+/-- C10 oracle queries: is the observed tag a permitted back end in this configuration? -/
+def queryLine (env : Env) (line : String) : Option String :=
+  match line.trimAscii.toString.splitOn " " with
+  | ["permitted", t] =>
+    match t.toNat? >>= Backend.ofTag? with
+    | some b => some (if decide (Permitted env.cfg env.cpu b) then "yes" else "no")
+    | none => some "no"
+  | ["nosimd"] => some (if decide (NoSimdPermitted env.cfg env.cpu) then "yes" else "no")
+  | _ => none
+
 def stepLine (env : Env) (w : World) (line : String) : World × String :=
   if line.trimAscii.toString == "" then (w, "") else
-  match specLine line with
+  match (specLine line).orElse (fun _ => queryLine env line) with
   | some s => (w, s)
   | none =>
     match parseOp env line with
